@@ -20,6 +20,7 @@ Open Scope Z_scope.
 
 Definition bytes := list Z.
 Definition len (l : bytes) : Z := Z.of_nat (length l).
+Global Arguments len : simpl never.
 
 Fixpoint take (n : Z) (l : bytes) : bytes :=
   match l with
@@ -96,6 +97,9 @@ Definition policy_eqb (a b : policy) : bool :=
   | _, _ => false
   end.
 Definition all_policies := [PNone; Basic128Rsa15; Basic256; Basic256Sha256; Aes128Sha256RsaOaep; Aes256Sha256RsaPss].
+(* an RSA key of [ks] bytes is within the policy's key length range *)
+Definition key_ok (p : policy) (ks : Z) : bool :=
+  is_none p || ((src_key_min_bits p <=? 8 * ks) && (8 * ks <=? src_key_max_bits p)).
 (* the channel signs (and maybe encrypts) its chunks *)
 Definition secured (p : policy) (m : mode) : bool :=
   negb (is_none p) && (mode_eqb m MSign || mode_eqb m MSignEnc).
@@ -315,11 +319,9 @@ Definition body_budget (fx : fixes) (s : sender) (t : mtype) (max_chunk : Z) : r
         if is_asym && fx_opn_budget fx && (0 <? p) then
           (* whole RSA blocks that fit behind the headers, less sequence header, signature and minimum padding *)
           let pbs := rsa_plain_block (s_policy s) (s_rks s) in
-          if max_chunk <? hs then Panic P_BUDGET
-          else
-            let blocks := (max_chunk - hs) / s_rks s in
-            let room := blocks * pbs in
-            if room <? 8 + sig + mp then Panic P_BUDGET else Ok (room - 8 - sig - mp)
+          let blocks := (max_chunk - Z.min hs max_chunk) / s_rks s in
+          let room := blocks * pbs in
+          if room <=? 8 + sig + mp then Err E_DEC else Ok (room - (8 + sig + mp))
         else
           let pad := if 0 <? p then (if fx_budget fx then mp + src_sym_block (s_policy s) - 1 else p) else 0 in
           let ds := hs + 8 + pad + sig in
@@ -444,6 +446,67 @@ Definition verify_padding (fx : fixes) (d : bytes) (key_size pe : Z) : res Z :=
     let start := pe - pb - 1 in
     if all_eqb pb (slice start pe d) then Ok start else Err E_SEC.
 
+(* asymmetric_decrypt_and_verify and the code around it, for an OPN chunk whose security header
+   names the policy [pol] (not None); [off] = length of the headers, [b1] = the bytes behind them *)
+Definition recv_asym (P : prims) (fx : fixes) (r : receiver) (src b1 : bytes) (off : Z)
+           (pol : policy) (cert thumb : option bytes) : res bytes :=
+  match cert with
+  | None => if fx_null_cert fx then Err E_SEC else Panic P_NULL_CERT
+  | Some c =>
+    match p_cert_key P c with
+    | None => Err E_SEC
+    | Some (vkey, vks) =>
+      match r_thumb r with
+      | None => if fx_own_cert fx then Err E_SEC else Panic P_NO_OWN_CERT
+      | Some own_thumb =>
+        if negb (bytes_eqb own_thumb (match thumb with Some t => t | None => [] end)) then Err E_SEC else
+        match r_pkey r with
+        | None => if fx_own_cert fx then Err E_SEC else Panic P_NO_PKEY
+        | Some (okey, oks) =>
+          do plain <- rsa_decrypt P fx okey oks pol b1;
+          let dsz := len plain in
+          if off + dsz <? vks then Panic P_DEC_SIG else
+          let sig_off := off + dsz - vks in
+          let dst := take off src ++ plain ++ rep (len b1 - dsz) 0 in
+          let key_size := match r_cert_ks r with Some k => k | None => vks end in
+          if negb (p_averify P vkey pol (take sig_off dst) (slice sig_off (sig_off + vks) dst)) then Err E_SEC else
+          do start <- verify_padding fx dst key_size sig_off;
+          Ok (take start (set_size dst start))
+        end
+      end
+    end
+  end.
+
+(* symmetric_decrypt_and_verify and the stripping of signature and padding, for a MSG / CLO chunk
+   of declared (= actual) size [msize] *)
+Definition recv_sym (P : prims) (fx : fixes) (r : receiver) (src b1 : bytes) (off msize : Z) : res bytes :=
+  if secured (r_policy r) (r_mode r) then
+    let ss := src_sym_sig (r_policy r) in
+    if msize <? ss then (if fx_size_sig fx then Err E_SEC else Panic P_SIZE_SIG) else
+    let signed_end := msize - ss in
+    match r_verkey r with
+    | None => if fx_no_keys fx then Err E_SEC else Panic P_NO_KEYS
+    | Some (vk, dk) =>
+      match r_mode r with
+      | MSign =>
+          if negb (bytes_eqb (p_mac P (r_policy r) vk (take signed_end src)) (drop signed_end src)) then Err E_SEC
+          else Ok (take signed_end (set_size src signed_end))
+      | _ (* MSignEnc *) =>
+          if negb ((msize - off) mod 16 =? 0) then (if fx_aes_block fx then Err E_SEC else Panic P_AES_BLOCK) else
+          let dst := take off src ++ p_aes_dec P dk b1 in
+          if negb (bytes_eqb (p_mac P (r_policy r) vk (take signed_end dst)) (drop signed_end dst)) then Err E_SEC else
+          if fx_pad_sign fx then
+            if msize <? ss + off + 1 then Err E_SEC else
+            let pe := msize - ss in
+            let ps := nth (Z.to_nat (pe - 1)) dst 0 + 1 in
+            if pe <? off + ps then Err E_SEC else
+            do start <- verify_padding fx dst ss pe;
+            Ok (take start (set_size dst start))
+          else Ok (take signed_end (set_size dst signed_end))
+      end
+    end
+  else Ok src.
+
 (* SecureChannel::verify_and_remove_security: the plain chunk and the policy the channel is left with *)
 Definition recv (P : prims) (fx : fixes) (r : receiver) (src : bytes) : res bytes * policy :=
   let keep := r_policy r in
@@ -460,71 +523,12 @@ Definition recv (P : prims) (fx : fixes) (r : receiver) (src : bytes) : res byte
       | Asym uri cert thumb =>
           match policy_of_uri (match uri with Some u => u | None => [] end) with
           | None => (Err E_SEC, keep)
-          | Some PNone => (Ok src, keep)
           | Some pol =>
-              (* self.security_policy = security_policy *)
-              match cert with
-              | None => (if fx_null_cert fx then Err E_SEC else Panic P_NULL_CERT, pol)
-              | Some c =>
-                match p_cert_key P c with
-                | None => (Err E_SEC, pol)
-                | Some (vkey, vks) =>
-                  (* asymmetric_decrypt_and_verify *)
-                  match r_thumb r with
-                  | None => (if fx_own_cert fx then Err E_SEC else Panic P_NO_OWN_CERT, pol)
-                  | Some own_thumb =>
-                    if negb (bytes_eqb own_thumb (match thumb with Some t => t | None => [] end)) then (Err E_SEC, pol) else
-                    match r_pkey r with
-                    | None => (if fx_own_cert fx then Err E_SEC else Panic P_NO_PKEY, pol)
-                    | Some (okey, oks) =>
-                      match rsa_decrypt P fx okey oks pol b1 with
-                      | Err e => (Err e, pol) | Panic s => (Panic s, pol)
-                      | Ok plain =>
-                        let dsz := len plain in
-                        if off + dsz <? vks then (Panic P_DEC_SIG, pol) else
-                        let sig_off := off + dsz - vks in
-                        let dst := take off src ++ plain ++ rep (len b1 - dsz) 0 in
-                        let key_size := match r_cert_ks r with Some k => k | None => vks end in
-                        if negb (p_averify P vkey pol (take sig_off dst) (slice sig_off (sig_off + vks) dst)) then (Err E_SEC, pol) else
-                        match verify_padding fx dst key_size sig_off with
-                        | Err e => (Err e, pol) | Panic s => (Panic s, pol)
-                        | Ok start => (Ok (take start (set_size dst start)), pol)
-                        end
-                      end
-                    end
-                  end
-                end
-              end
+              if is_none pol then (Ok src, keep)
+              else (* self.security_policy = security_policy *)
+                   (recv_asym P fx r src b1 off pol cert thumb, pol)
           end
-      | Sym _ =>
-          if secured (r_policy r) (r_mode r) then
-            let ss := src_sym_sig (r_policy r) in
-            if msize <? ss then (if fx_size_sig fx then Err E_SEC else Panic P_SIZE_SIG, keep) else
-            let signed_end := msize - ss in
-            match r_verkey r with
-            | None => (if fx_no_keys fx then Err E_SEC else Panic P_NO_KEYS, keep)
-            | Some (vk, dk) =>
-              match r_mode r with
-              | MSign =>
-                  if negb (bytes_eqb (p_mac P (r_policy r) vk (take signed_end src)) (drop signed_end src)) then (Err E_SEC, keep)
-                  else (Ok (take signed_end (set_size src signed_end)), keep)
-              | _ (* MSignEnc *) =>
-                  if negb ((msize - off) mod 16 =? 0) then (if fx_aes_block fx then Err E_SEC else Panic P_AES_BLOCK, keep) else
-                  let dst := take off src ++ p_aes_dec P dk b1 in
-                  if negb (bytes_eqb (p_mac P (r_policy r) vk (take signed_end dst)) (drop signed_end dst)) then (Err E_SEC, keep) else
-                  if fx_pad_sign fx then
-                    if msize <? ss + off + 1 then (Err E_SEC, keep) else
-                    let pe := msize - ss in
-                    let ps := nth (Z.to_nat (pe - 1)) dst 0 + 1 in
-                    if pe <? off + ps then (Err E_SEC, keep) else
-                    match verify_padding fx dst ss pe with
-                    | Err e => (Err e, keep) | Panic s => (Panic s, keep)
-                    | Ok start => (Ok (take start (set_size dst start)), keep)
-                    end
-                  else (Ok (take signed_end (set_size dst signed_end)), keep)
-              end
-            end
-          else (Ok src, keep)
+      | Sym _ => (recv_sym P fx r src b1 off msize, keep)
       end
     end
   end.
@@ -572,7 +576,7 @@ Definition decode (P : prims) (r : receiver) (cs : list bytes) : res bytes :=
 Definition current : fixes :=
   {| fx_pad_sign := true; fx_budget := true; fx_rsa_block := true; fx_null_cert := false; fx_own_cert := false;
      fx_no_keys := false; fx_aes_block := false; fx_size_sig := false; fx_padding := false; fx_seq := false;
-     fx_opn_budget := false |}.
+     fx_opn_budget := true |}.
 (* the pinned code before any fix: commit *)
 Definition pinned : fixes :=
   {| fx_pad_sign := false; fx_budget := false; fx_rsa_block := false; fx_null_cert := false; fx_own_cert := false;
